@@ -115,6 +115,24 @@ func c12(ctx *Ctx) (*Outcome, error) {
 			d := &sg.Schema{Types: []string{"object"}, Props: []sg.Prop{{Name: "v", S: &sg.Schema{Types: []string{"integer"}}}}, Required: []string{"v"}}
 			big.Defs = append(big.Defs, sg.Prop{Name: fmt.Sprintf("Bulk%02d", (k*3)%10), S: d})
 		}
+		if i%4 == 2 {
+			// keywords the generator does not (fully) support, each with several entries: whatever it makes of them,
+			// it makes the same of them in every process
+			str := func(extra ...jsonx.KV) jsonx.Obj { return append(jsonx.Obj{{K: "type", V: "string"}}, extra...) }
+			pp := &sg.Schema{Types: []string{"object"}}
+			pp.Extra = append(pp.Extra, jsonx.KV{K: "patternProperties", V: jsonx.Obj{{K: "^at_", V: str(jsonx.KV{K: "format", V: "date-time"})}, {K: "^note_", V: str()}, {K: "^kind_", V: str(jsonx.KV{K: "enum", V: []any{"a", "b"}})},
+				{K: "^n_", V: jsonx.Obj{{K: "type", V: "integer"}, {K: "minimum", V: jsonx.N(0)}, {K: "maximum", V: jsonx.N(255)}}}, {K: "^o_", V: jsonx.Obj{{K: "type", V: "object"}, {K: "properties", V: jsonx.Obj{{K: "q", V: str()}}}}}}})
+			big.Props = append(big.Props, sg.Prop{Name: "marks", S: pp})
+			un := &sg.Schema{Types: []string{"object"}, Props: []sg.Prop{{Name: "a", S: &sg.Schema{Types: []string{"string"}}}, {Name: "b", S: &sg.Schema{Types: []string{"integer"}}}}}
+			un.Extra = append(un.Extra,
+				jsonx.KV{K: "dependentRequired", V: jsonx.Obj{{K: "a", V: []any{"b"}}, {K: "b", V: []any{"a"}}}},
+				jsonx.KV{K: "dependentSchemas", V: jsonx.Obj{{K: "a", V: jsonx.Obj{{K: "required", V: []any{"b"}}}}, {K: "b", V: jsonx.Obj{{K: "properties", V: jsonx.Obj{{K: "c", V: str()}}}}}}},
+				jsonx.KV{K: "oneOf", V: []any{jsonx.Obj{{K: "required", V: []any{"a"}}}, jsonx.Obj{{K: "required", V: []any{"b"}}}}},
+				jsonx.KV{K: "not", V: jsonx.Obj{{K: "required", V: []any{"zzz"}}}},
+				jsonx.KV{K: "if", V: jsonx.Obj{{K: "required", V: []any{"a"}}}}, jsonx.KV{K: "then", V: jsonx.Obj{{K: "required", V: []any{"b"}}}},
+				jsonx.KV{K: "propertyNames", V: jsonx.Obj{{K: "pattern", V: "^[a-z]+$"}}}, jsonx.KV{K: "unevaluatedProperties", V: false}, jsonx.KV{K: "minProperties", V: jsonx.N(1)})
+			big.Props = append(big.Props, sg.Prop{Name: "unsupported", S: un})
+		}
 		if i%3 == 1 {
 			// names that are equal under some coarser comparison (case, separators): ties in any sort the generator
 			// uses must still be broken deterministically
